@@ -145,9 +145,22 @@ def check(ctx):
         facts = inline_facts(rd, wd[0][0])
         ok = has_fact(facts, "key in M_s['waiting_data']", True) is not None and len(facts) == 1
     ctx.ob("PAIR.release-data.waiting-data", rd, "if key in waiting_data: del waiting_data[key]", ok)
+    # ---------------- the protected set: exactly the requested keys, for the whole run
+    ga = mod.func("get_async")
+    defs = [a for a in walk_no_nested(ga) if isinstance(a, (ast.Assign, ast.AugAssign, ast.AnnAssign)) and any(isinstance(t, ast.Name) and t.id == "results" for t in (a.targets if isinstance(a, ast.Assign) else [a.target]))]
+    muts = [c for c in ast.walk(ga) if isinstance(c, ast.Call) and isinstance(c.func, ast.Attribute) and unparse(c.func.value) == "results" and c.func.attr in ("difference_update", "discard", "remove", "pop", "clear", "intersection_update", "symmetric_difference_update", "update", "add")]
+    ok = len(defs) == 1 and isinstance(defs[0], ast.Assign) and unparse(defs[0].value) == "set(result_flat)" and not muts
+    ctx.ob("OWN.protected-set", ga, "results = set(result_flat), assigned once and never modified", ok, "" if ok else f"the protected set is changed after it was built ({[unparse(m)[:50] for m in muts] or [unparse(d)[:50] for d in defs]}): a requested key can be released before the scheduler returns it")
+    rf = find("result_flat = M_v", ga)
+    ok = len(rf) >= 1 and all("result" in unparse(b["M_v"]) for _, b in rf)
+    ctx.ob("OWN.protected-set.source", ga, "result_flat is the flattened request", ok)
+    ft = [c for c in calls(ga, "finish_task")]
+    ok = len(ft) == 1 and len(ft[0].args) >= 4 and unparse(ft[0].args[3]) == "results"
+    ctx.ob("OWN.protected-set.use", ga, "finish_task receives that set as its `results`", ok)
 
 
 VARIANTS = [
+    (LOCAL, "    results = set(result_flat)\n", "    results = set(result_flat)\n    if cache:\n        results.difference_update(cache)\n", "OWN.protected-set"),
     (LOCAL, "            if not s and dep not in results:", "            if not s:", "DOM.release.not-requested"),
     (LOCAL, "            if not s and dep not in results:", "            if dep not in results:", "DOM.release.last-consumer"),
     (LOCAL, "        elif delete and dep not in results:", "        elif delete:", "DOM.release.not-requested"),
